@@ -66,6 +66,7 @@ type rootTask struct {
 
 func (rt *rootTask) run() {
 	wd := rt.wd
+	wd.rootTaskID = simrt.CurID()
 	wd.setup()
 	wd.startErrReader()
 	if rt.hook != nil {
